@@ -42,6 +42,12 @@ pub fn run(args: &[String]) {
         let first = match rng.below(7) { 0 => Some(span * 0.02), 1 => Some(span * 3.0), 2 => Some(-span * 0.1), 3 => Some(1.0), _ => None };
         let maxstep = match rng.below(6) { 0 => Some(span / 7.0), 1 => Some(f64::INFINITY), _ => None };
         let minstep = if rng.chance(0.1) { Some(span * 1e-6) } else { None };
+        // every 20th case: a tiny time scale with a max_step far below the automatic first step
+        let (span, xend, first, maxstep, minstep) = if id % 20 == 7 {
+            let sp = if rng.chance(0.5) { 1.03e-5 } else { 4.1e-6 };
+            (sp, if back { x0 - sp } else { x0 + sp }, if rng.chance(0.3) { Some(3e-7) } else { None }, Some(if rng.chance(0.5) { 2e-7 } else { 5e-7 }), None)
+        } else { (span, xend, first, maxstep, minstep) };
+        let (p, y0) = if id % 20 == 7 { let p = Prob::new(Kind::Slow); let y0 = p.y0(); (p, y0) } else { (p, y0) };
         let nmax = if rng.chance(0.2) { 1 + rng.below(60) } else { 3000 };
         let maxit = if rng.chance(0.25) { 1 + rng.below(5) } else { 4 };
         let ntol = if rng.chance(0.1) { Some(10f64.powf(-rng.range(1.0, 4.0))) } else { None };
